@@ -8,6 +8,8 @@ import TunnoxModel.Spec.C13
          | "sched" idx* "/" prog (";" prog)*   gated schedule of concurrent callers (memory)
          | "conc" prog (";" prog)*          free-running concurrent callers (memory)
          | "hammer" …                        crash/race stress, expected observation `ok`
+         | "sweep" call|tick keys writers rounds   real CleanupExpired vs concurrent re-writes of expired keys;
+                                             obs carries one per-key sequential history, judged by holdsSeq
   item  := call | "sl" <ns>                  (`sl` advances the clock; every call advances it by 1)
   call  := set k a ttl | setl k n a… ttl | get k | del k | ex k | nx k a ttl | cas k (nil|a) a ttl
          | exp k ttl | ttl k | getl k | app k a | rem k a | hset k f a | hget k f | hall k | hdel k f
@@ -133,6 +135,7 @@ def runModel (ts : List String) : String :=
       | _, _ => "bad-case"
     | _ => "bad-case"
   | "hammer" :: _ => "ok"
+  | "sweep" :: _ => "ok"
   | _ => "bad-case"
 
 def runHolds (caseToks obsToks : List String) : String :=
@@ -157,6 +160,14 @@ def runHolds (caseToks obsToks : List String) : String :=
     | some progs => boolStr (Spec.holdsConc burstNow progs (splitTok ";" obsToks))
     | none => "false"
   | "hammer" :: _ => boolStr (obsToks == ["ok"])
+  | "sweep" :: _ =>
+    -- obs = keys <n> lost <c> hist <per-key history> obs <its answers>: the reference judges the key
+    match obsToks with
+    | "keys" :: _ :: "lost" :: _ :: "hist" :: rest =>
+      match parseHistory (rest.takeWhile (· != "obs")) with
+      | some h => boolStr (Spec.holdsSeq h ((rest.dropWhile (· != "obs")).drop 1))
+      | none => "false"
+    | _ => "false"
   | _ => "false"
 
 end Tunnox.Drv.C13
